@@ -78,6 +78,22 @@ func runC03(ctx *Ctx) {
 		c03DoPool(ctx, c03WrapPool("fixed/strings", k, strs), 1)
 	}
 	c03DoPool(ctx, c03Pool{"fixed/bools", []cty.Value{cty.True, cty.False, cty.NullVal(cty.Bool)}}, 2)
+	// 2b. the model's copy of strconv's printable-rune table (hash bytes of strings are %q-quoted):
+	// every edge of every range the model claims to know, and random runes inside them
+	edges := []rune{0x1f, 0x20, 0x22, 0x5c, 0x7e, 0x7f, 0x80, 0xa0, 0xa1, 0xac, 0xad, 0xae, 0xff, 0x100, 0x377, 0x10ff, 0x1100, 0x11ff,
+		0x2000, 0x200f, 0x2010, 0x2027, 0x2028, 0x202f, 0x2100, 0x213f, 0xabff, 0xac00, 0xd7a3, 0xfb00, 0xfb06, 0xfffd, 0x1f1e6, 0x1f1ff, 0x1f300, 0x1f64f, 7, 8, 9, 10, 11, 12, 13, 0}
+	for i := 0; i < ctx.N(150, 3000); i++ {
+		lo := []rune{0x20, 0xa1, 0x100, 0x1100, 0x2000, 0x2100, 0xac00, 0x1f300}[ctx.R.Intn(8)]
+		edges = append(edges, lo+rune(ctx.R.Intn(map[rune]int{0x20: 0x60, 0xa1: 0x5f, 0x100: 0x278, 0x1100: 0x100, 0x2000: 0x30, 0x2100: 0x40, 0xac00: 0x2ba4, 0x1f300: 0x350}[lo])))
+	}
+	for _, r := range edges {
+		v := cty.StringVal("a" + string(r))
+		w := encVal(v)
+		if b, pn := cty.VerifHashBytes(v); !pn {
+			ctx.Add("hash.bytes", "ok "+encStr(string(b)), w)
+			ctx.Tag("rune-table")
+		}
+	}
 	// 3. number pools (one number at several precisions + neighbours) and wrapped pools
 	for k := 0; k < ctx.N(24, 150); k++ {
 		base := c03NumPool(ctx)
